@@ -45,6 +45,10 @@ BaseTwo == {[a \in AcctCU |-> Empty(FTwo)], [a \in AcctCU |-> IF a = "c" THEN Fu
 \* ---- everything (simulation)
 KindsAll == [a \in AcctCU |-> IF a = "c" THEN KC ELSE KU]
 BaseAll == {[a \in AcctCU |-> Empty(AllFields)], [a \in AcctCU |-> IF a = "c" THEN FullC(AllFields) ELSE FullU(AllFields)]}
+\* ---- negative controls: one contract account, the kinds the deviations need
+FNeg == {"bal", "code", "chash", "s1", "sui", "ev", "aid", "eq", "rs", "rai", "req"}
+KindsNeg == [a \in AcctC |-> {"bal", "s1", "code", "sui", "ev", "aid", "eq"}]
+BaseNeg == {[a \in AcctC |-> Empty(FNeg)]}
 NoDev == {}
 AllDev == {"Dev_UndoCodeDropsPreviousCode", "Dev_UndoSuicideShallow", "Dev_UndoEventNoop", "Dev_RevertVersionGapPanics", "Dev_UndoFirstEquityPanics"}
 ====
